@@ -22,7 +22,7 @@ ASSUMPTIONS = [
     "inputs the statement does not classify are never generated: duplicate operator ids, a parent listed twice, a pipeline id that reappears "
     "later, NaN/inf/negative numbers, whitespace-only numeric cells, missing or extra columns, forward references to later operators",
 ]
-FLOORS = {"multi_parent_and_explicit_zero": 0.05, "malformed": 0.2, "handwritten": 0.05}
+FLOORS = {"multi_parent_and_explicit_zero": (0.05, "hyp"), "malformed": (0.2, "hyp"), "handwritten": (0.05, "hyp")}
 PRIOS = ["QUERY", "INTERACTIVE", "BATCH_PIPELINE"]
 FIELDS = ['pipeline_id', 'arrival_seconds', 'priority', 'operator_id', 'parents', 'baseline_cpu_seconds', 'cpu_scaling',
           'memory_gb', 'storage_read_gb']
@@ -31,7 +31,8 @@ RULES = ["first_no_priority", "first_no_arrival", "later_priority", "later_arriv
 
 
 def plan(tier):
-    return [{"kind": "hypothesis", "examples": 3000 if tier == "quick" else 100000}]
+    return [{"kind": "hypothesis", "examples": 3000 if tier == "quick" else 100000},
+            {"kind": "function", "func": "fuzz", "shards": 2 if tier == "quick" else 8}]
 
 
 number = st.one_of(st.integers(0, 100), st.sampled_from([0, 0.0, 1, 2.5, 15, 37.5, 55, 0.001, 1e-300, 1e300, 5e-324, 123456.789]),
@@ -182,8 +183,17 @@ def fmt_num(v, how):
     return repr(v)
 
 
+def fuzz(tier, seed, shard, nshards):
+    """coverage-guided campaign (atheris / libFuzzer) over the CSV grammar with the C14 oracle inside the target"""
+    from verif.fuzz.driver import campaign
+    return campaign("C14", tier, seed, shard, nshards)
+
+
 def run_case(spec):
     out = Outcome()
+    if "fuzz_bytes_hex" in spec:
+        from verif.fuzz import driver
+        return driver.replay(spec, out)
     tps = spec["tps"]
     pipes = spec["pipelines"]
     nticks = max(p["tick"] for p in pipes) + 1
@@ -203,6 +213,7 @@ def run_case(spec):
     if len({p["tick"] for p in pipes}) < len(pipes):
         out.label("two_pipelines_one_arrival")
     out.label(spec["kind"])
+    out.label("hyp")
 
     try:
         text = write_trace(build(spec), tps, nticks)
